@@ -448,11 +448,11 @@ func ruleSearchPredicates(c *eng.Ctx) {
 	}
 	call := func(ref string) eng.VM { return eng.Call(-1, ref) }
 	preds := []pred{
-		{cl + "findSegment$1", "segments[i].NextOffset() > offset", eng.Bin(token.GTR, call(cl+"segment.NextOffset"), eng.Param("offset"))},
-		{cl + "findSegmentByBaseOffset$1", "segments[i].BaseOffset >= offset", eng.Bin(token.GEQ, eng.LoadNamed("BaseOffset", nil), eng.Param("offset"))},
-		{cl + "(*segment).findEntry$1", "entry.Offset >= offset", eng.Bin(token.GEQ, eng.LoadNamed("Offset", nil), eng.Param("offset"))},
-		{cl + "(*segment).findEntryByTimestamp$1", "entry.Timestamp >= timestamp", eng.Bin(token.GEQ, eng.LoadNamed("Timestamp", nil), eng.Param("timestamp"))},
-		{cl + "findSegmentIndexByTimestamp$1", "entry.Timestamp > timestamp", eng.Bin(token.GTR, eng.LoadNamed("Timestamp", nil), eng.Param("timestamp"))},
+		{cl + "findSegment$1", "segments[i].NextOffset() > offset", eng.RelVal(call(cl+"segment.NextOffset"), eng.Param("offset"), eng.GT)},
+		{cl + "findSegmentByBaseOffset$1", "segments[i].BaseOffset >= offset", eng.RelVal(eng.LoadNamed("BaseOffset", nil), eng.Param("offset"), eng.GE)},
+		{cl + "(*segment).findEntry$1", "entry.Offset >= offset", eng.RelVal(eng.LoadNamed("Offset", nil), eng.Param("offset"), eng.GE)},
+		{cl + "(*segment).findEntryByTimestamp$1", "entry.Timestamp >= timestamp", eng.RelVal(eng.LoadNamed("Timestamp", nil), eng.Param("timestamp"), eng.GE)},
+		{cl + "findSegmentIndexByTimestamp$1", "entry.Timestamp > timestamp", eng.RelVal(eng.LoadNamed("Timestamp", nil), eng.Param("timestamp"), eng.GT)},
 	}
 	for _, pr := range preds {
 		fn := c.Fn(pr.fn)
@@ -467,7 +467,7 @@ func ruleSearchPredicates(c *eng.Ctx) {
 	}
 	if fn := c.Fn(cl + "findSegmentContains"); fn != nil {
 		nRet, ok := allReturns(fn, func(rv []ssa.Value) bool { return len(rv) == 2 && !eng.NilConst(rv[0]) }, func(rv []ssa.Value) bool {
-			return eng.Bin(token.LEQ, eng.LoadNamed("BaseOffset", nil), eng.Param("offset"))(rv[1])
+			return eng.RelVal(eng.LoadNamed("BaseOffset", nil), eng.Param("offset"), eng.LE)(rv[1])
 		})
 		ok = ok && nRet > 0
 		c.Check(ok, "findSegmentContains bound", p.Pos(fn.Pos()), "contains = seg.BaseOffset <= offset", "findSegmentContains does not report BaseOffset <= offset")
